@@ -208,6 +208,7 @@ pub struct CodegenContext {
     /// The banks and segments that were defined in the current pass (a second definition replaces the first,
     /// dropping whatever was emitted to it)
     defined_in_pass: std::collections::HashSet<(bool, Identifier)>,
+    defined_last_pass: std::collections::HashSet<(bool, Identifier)>,
 
     test_elements: Vec<TestElement>,
     /// While the body of the active test is being emitted: the address of the first byte it has emitted so far
@@ -269,6 +270,7 @@ impl CodegenContext {
             loop_iterations: 0,
             recursive_macro_expansions: 0,
             defined_in_pass: Default::default(),
+            defined_last_pass: Default::default(),
             test_elements: vec![],
             active_test_entry: None,
             source_map: SourceMap::default(),
@@ -358,7 +360,7 @@ impl CodegenContext {
         self.next_macro_scope_id = 0;
         self.loop_iterations = 0;
         self.recursive_macro_expansions = 0;
-        self.defined_in_pass.clear();
+        self.defined_last_pass = std::mem::take(&mut self.defined_in_pass);
 
         log::trace!("\n* NEXT PASS ({}) *", self.pass_idx);
         self.segments.values_mut().for_each(|s| s.reset());
@@ -1352,6 +1354,22 @@ impl CodegenContext {
                             .with_labels(vec![id.span.to_label()])
                             .into());
                     };
+                    // The segment is known from the previous pass only, its definition stands further down: that definition
+                    // starts the segment afresh, so whatever is emitted here would be missing from a successful build
+                    let analysing = matches!(&self.current_segment, Some(s) if s.as_str() == "$dummy");
+                    let key = (false, segment_id.clone());
+                    if !analysing
+                        && self.defined_last_pass.contains(&key)
+                        && !self.defined_in_pass.contains(&key)
+                    {
+                        return Err(Diagnostic::error()
+                            .with_message(format!(
+                                "segment '{}' is used in front of its definition",
+                                segment_id
+                            ))
+                            .with_labels(vec![id.span.to_label()])
+                            .into());
+                    }
 
                     match block {
                         Some(block) => {
